@@ -54,11 +54,14 @@ ApplyDelta(doc, d) ==
                             THEN [ok |-> TRUE, doc |-> [keys |-> <<d.i>>, mem |-> {}]]
                             ELSE [ok |-> FALSE, doc |-> doc]
 
-      \* one json patch of two moves: member i to a member whose NAME holds the characters ~1 (and a /), and back.  It
-      \* applies iff the member is there, and then the document is what it was
-      [] d.k = "renmem"  -> IF d.i \in doc.mem THEN [ok |-> TRUE, doc |-> doc] ELSE [ok |-> FALSE, doc |-> doc]
+      \* two patches: a json patch of two moves - member 1 to a member whose NAME holds the characters ~1 (and a /), and
+      \* back - and then add key i.  The moves cancel; the list applies iff member 1 is there, and then the key is added
+      [] d.k = "renmem_addkey" ->
+                            IF 1 \in doc.mem
+                            THEN [ok |-> TRUE, doc |-> [doc EXCEPT !.keys = IF Has(@, d.i) THEN @ ELSE Append(@, d.i)]]
+                            ELSE [ok |-> FALSE, doc |-> doc]
 
-DeltaKinds == {"addkey", "remkey", "replace", "addmem", "remmem", "addkey_remmem", "remmem_replace", "renmem"}
+DeltaKinds == {"addkey", "remkey", "replace", "addmem", "remmem", "addkey_remmem", "remmem_replace", "renmem_addkey"}
 
 -----------------------------------------------------------------------------
 (* Anchoring window (C09).                                                 *)
@@ -95,8 +98,8 @@ SigBad == {"bitflip", "otherkey", "trunc", "pad", "payload_field", "hdr_changed"
 DvBad == {"nodelta", "nopatches", "disabled", "invalidpatch", "noaction", "upd_mh", "toolarge"}
 
 Deltas == [k : {"addkey", "remkey", "replace"}, i : KeyIds]
-            \cup [k : {"addmem", "remmem", "renmem"}, i : Mems]
-            \cup [k : {"addkey_remmem", "remmem_replace"}, i : KeyIds]
+            \cup [k : {"addmem", "remmem"}, i : Mems]
+            \cup [k : {"addkey_remmem", "remmem_replace", "renmem_addkey"}, i : KeyIds]
 
 DefDelta == [k |-> "addkey", i |-> CHOOSE i \in KeyIds : \A j \in KeyIds : i <= j]
 
